@@ -671,13 +671,22 @@ func (t *TC) WaitSession(resource string, d time.Duration) *Session {
 // Request sends m as a sync request on s with a TC-chosen (or forced) id and returns the channel of the response
 // (nil message = undecodable response).
 func (t *TC) Request(s *Session, m *wire.Msg, forceID uint32) (uint32, chan *wire.Msg, error) {
+	return t.request(s, m, forceID, forceID != 0)
+}
+
+// RequestExact is Request with exactly this message id, 0 included.
+func (t *TC) RequestExact(s *Session, m *wire.Msg, id uint32) (uint32, chan *wire.Msg, error) {
+	return t.request(s, m, id, true)
+}
+
+func (t *TC) request(s *Session, m *wire.Msg, forceID uint32, forced bool) (uint32, chan *wire.Msg, error) {
 	body, err := wire.Encode(m)
 	if err != nil {
 		return 0, nil, err
 	}
 	t.mu.Lock()
 	id := forceID
-	if id == 0 {
+	if !forced {
 		t.nextReqID++
 		id = t.nextReqID
 	}
